@@ -9499,7 +9499,12 @@ func (c *Checker) checkUsingEntryNodeForNamespaces(node ast.UsingEntryNode) ast.
 	case *ast.MethodLookupNode, *ast.MethodLookupAsNode:
 		return n
 	default:
-		panic(fmt.Sprintf("invalid using entry node: %T", node))
+		// e.g. `using unquote(a)` outside of a quote: the parser accepts it as an entry
+		c.addFailure(
+			"invalid using entry",
+			node.Location(),
+		)
+		return node
 	}
 }
 
